@@ -8,6 +8,7 @@ others for all token lists (Lemmas/Argparse*.lean).
 -/
 import CnfgenModel.Cli.Argparse
 import Lemmas.ArgparseTotal
+import Lemmas.ArgparseTokens
 namespace Cnfgen.C17
 open Cnfgen.Cli Cnfgen.Cli.AP Cnfgen.Gen
 
@@ -50,5 +51,143 @@ theorem parser_total_all_tokens (s : CliSpec) (hs : s ∈ cliSpecs) (hsup : s.su
 example : (cliSpecs.find? (·.name == "kclique")).map (fun s => parseX s ["--no", "3", "complete", "4"]) =
     some (.ok [("G", .graph "simple" ["complete", "4"]), ("k", .int 3), ("symmetrybreaking", .bool false)]) := by
   decide +kernel
+
+/-! ### spellings: table half (what cnfgen's parsers read, checked over the regenerated option tables) -/
+
+/-- a check over a table, done in three parts (each `decide` stays short) -/
+theorem all_of_parts {α : Type} (l : List α) (p : α → Bool) (n m : Nat) (h1 : (l.take n).all p = true)
+    (h2 : ((l.drop n).take m).all p = true) (h3 : ((l.drop n).drop m).all p = true) : l.all p = true := by
+  have : l = l.take n ++ ((l.drop n).take m ++ (l.drop n).drop m) := by
+    rw [List.take_append_drop, List.take_append_drop]
+  rw [this, List.all_append, List.all_append, h1, h2, h3]
+  rfl
+
+/-- the option strings of every handled sub-command (with `-h`, `--help`): none looks like a negative number
+(`_has_negative_number_optionals` is empty, so `-1` is an argument everywhere), none contains `=` or a blank -/
+theorem option_strings_plain :
+    (cliSpecs.filter (·.supportedX)).all (fun s => stringsOK (mainSpec s).strings) = true := by decide +kernel
+
+/-- PREFIXES.  For every handled sub-command and every long option of it: each proper prefix (≥ 3 characters) is
+read as that option when it is a prefix of no other option string, and refused as ambiguous otherwise
+(`--no` for `shuffle`, `--knuth` for `op`) -/
+theorem unique_prefixes_accepted_1 :
+    ((cliSpecs.filter (·.supportedX)).take 17).all (fun s => abbrevOK (mainSpec s).strings) = true := by
+  decide +kernel
+theorem unique_prefixes_accepted_2 :
+    (((cliSpecs.filter (·.supportedX)).drop 17).take 17).all (fun s => abbrevOK (mainSpec s).strings) = true := by
+  decide +kernel
+theorem unique_prefixes_accepted_3 :
+    (((cliSpecs.filter (·.supportedX)).drop 17).drop 17).all (fun s => abbrevOK (mainSpec s).strings) = true := by
+  decide +kernel
+theorem unique_prefixes_accepted :
+    (cliSpecs.filter (·.supportedX)).all (fun s => abbrevOK (mainSpec s).strings) = true :=
+  all_of_parts _ _ 17 17 unique_prefixes_accepted_1 unique_prefixes_accepted_2 unique_prefixes_accepted_3
+
+/-- CLUSTERS.  For every handled sub-command: any two or three of its one-letter flags (`-h` included) written as
+one token `-xy`, `-xyz` are read as `-x` with the other letters as explicit argument -/
+theorem flag_clusters_classified_1 :
+    ((cliSpecs.filter (·.supportedX)).take 17).all (fun s => clusterOK (mainSpec s).strings) = true := by
+  decide +kernel
+theorem flag_clusters_classified_2 :
+    (((cliSpecs.filter (·.supportedX)).drop 17).take 17).all (fun s => clusterOK (mainSpec s).strings) = true := by
+  decide +kernel
+theorem flag_clusters_classified_3 :
+    (((cliSpecs.filter (·.supportedX)).drop 17).drop 17).all (fun s => clusterOK (mainSpec s).strings) = true := by
+  decide +kernel
+theorem flag_clusters_classified :
+    (cliSpecs.filter (·.supportedX)).all (fun s => clusterOK (mainSpec s).strings) = true :=
+  all_of_parts _ _ 17 17 flag_clusters_classified_1 flag_clusters_classified_2 flag_clusters_classified_3
+
+/-! ### spellings: for all command lines -/
+
+/-- what is built depends on the tokens only through the parser's bindings and the main parser's ambiguity check -/
+theorem dispatchX_congr (tool : String) (ord : List String → Nat) (s : CliSpec) (argv argv' : List String)
+    (hp : parseX s argv = parseX s argv') (ht : topAmbiguous tool s.kind argv = topAmbiguous tool s.kind argv') :
+    dispatchSpecX tool ord s argv = dispatchSpecX tool ord s argv' := by
+  unfold dispatchSpecX dispatchTemplateX
+  rw [hp, ht]
+
+/-- T-C17.6a ABBREVIATION.  A token that the sub-command's parser reads as the option string `f` — by
+`unique_prefixes_accepted`: every unique prefix of a long option — behaves exactly like `f`: anywhere before the
+first `--`, in ANY command line (other abbreviations, `=`-forms, clusters, errors included), the parser makes the same
+bindings or fails the same way. -/
+theorem abbreviation_sound (s : CliSpec) (pre post : List String) (a f : String)
+    (hpre : "--" ∉ pre) (ha : a ≠ "--") (hf : f ≠ "--")
+    (hcls : classifyTok (mainSpec s).strings a = classifyTok (mainSpec s).strings f) :
+    parseX s (pre ++ a :: post) = parseX s (pre ++ f :: post) :=
+  engine_same_class (mainBind s) (mainSpec s) pre post a f hpre ha hf hcls
+
+/-- … and so the same thing is built, when the tool's own parser does not find the abbreviation ambiguous
+(`--v`, `--he`, `--o` are: they are prefixes of several options of `cnfgen` itself) -/
+theorem abbreviation_sound_dispatch (tool : String) (ord : List String → Nat) (s : CliSpec)
+    (pre post : List String) (a f : String) (hpre : "--" ∉ pre) (ha : a ≠ "--") (hf : f ≠ "--")
+    (hcls : classifyTok (mainSpec s).strings a = classifyTok (mainSpec s).strings f)
+    (htop : (classifyTok (topStrings tool s.kind) a).isAmbiguous = (classifyTok (topStrings tool s.kind) f).isAmbiguous) :
+    dispatchSpecX tool ord s (pre ++ a :: post) = dispatchSpecX tool ord s (pre ++ f :: post) := by
+  apply dispatchX_congr tool ord s _ _ (abbreviation_sound s pre post a f hpre ha hf hcls)
+  unfold topAmbiguous
+  have hw : ∀ (x : String) (hx : x ≠ "--"), (pre ++ x :: post).takeWhile (fun t => t != "--") =
+      pre ++ x :: post.takeWhile (fun t => t != "--") := by
+    intro x hx
+    have hall : ∀ y ∈ pre, (y != "--") = true := by
+      intro y hy
+      simp only [bne_iff_ne, ne_eq]
+      intro e
+      exact hpre (e ▸ hy)
+    rw [List.takeWhile_append_of_pos hall]
+    simp [hx]
+  rw [hw a ha, hw f hf]
+  simp only [List.any_append, List.any_cons, htop]
+
+example : classifyTok (optStrings []) "--he" = classifyTok (optStrings []) "--help" := by decide +kernel
+
+/-- T-C17.6b `--opt=v` IS `--opt v`.  For an option that takes ONE argument, `f=v` (read by the parser as `f` with the
+explicit argument `v` — `eq_token_classified`: every `f=v` where `f` is an option string) and the two tokens `f v`,
+`v` an argument: same bindings / same failure, anywhere before the first `--`, in any command line. -/
+theorem eq_form_sound (s : CliSpec) (pre post : List String) (t f v : String) (tg : Target)
+    (hpre : "--" ∉ pre) (ht : t ≠ "--") (hf : f ≠ "--") (hv : v ≠ "--")
+    (hct : classifyTok (mainSpec s).strings t = .opt tg f (some v))
+    (hcf : classifyTok (mainSpec s).strings f = .opt tg f none)
+    (hcv : classifyTok (mainSpec s).strings v = .arg v) (h1 : arityT tg = .one) :
+    parseX s (pre ++ t :: post) = parseX s (pre ++ f :: v :: post) :=
+  engine_eqform_one (mainBind s) (mainSpec s) pre post t f v tg hpre ht hf hv hct hcf hcv h1
+
+/-- … for an option that takes ONE OR MORE arguments (the graph options `-e`, `-G`, `-H`): `f=v` takes exactly `v`, so
+it is `f v` when no further argument follows (end of the command line, an option, `--`) -/
+theorem eq_form_sound_plus (s : CliSpec) (pre post : List String) (t f v : String) (tg : Target)
+    (hpre : "--" ∉ pre) (ht : t ≠ "--") (hf : f ≠ "--") (hv : v ≠ "--")
+    (hct : classifyTok (mainSpec s).strings t = .opt tg f (some v))
+    (hcf : classifyTok (mainSpec s).strings f = .opt tg f none)
+    (hcv : classifyTok (mainSpec s).strings v = .arg v) (h1 : arityT tg = .plus)
+    (hpost : post = [] ∨ ∃ x rest, post = x :: rest ∧ (x = "--" ∨ ∀ y, classifyTok (mainSpec s).strings x ≠ .arg y)) :
+    parseX s (pre ++ t :: post) = parseX s (pre ++ f :: v :: post) :=
+  engine_eqform_plus (mainBind s) (mainSpec s) pre post t f v tg hpre ht hf hv hct hcf hcv h1
+    (avail_nil_of_head _ post hpost)
+
+/-- `f=v` is read as `f` with the explicit argument `v`, for every option string `f` and every `v` -/
+theorem eq_token_is_option (strs : List (String × Target)) (f v : String) (tg : Target) (fr : List Char)
+    (hf : f.toList = '-' :: fr) (hfr : fr ≠ []) (hne : '=' ∉ f.toList) (hl : lookupOS strs f = some tg)
+    (hnot : lookupOS strs (f ++ "=" ++ v) = none) :
+    classifyTok strs (f ++ "=" ++ v) = .opt tg f (some v) :=
+  eq_token_classified strs f v tg fr hf hfr hne hl hnot
+
+/-- T-C17.6c CLUSTER.  A token `-x<e>` read by the parser as the flag `-x` with explicit argument `e`
+(`flag_clusters_classified`) whose letters all stand for flags (options without argument, `-h` included) is the
+sequence of the separate flags: same bindings / same failure / same help exit, anywhere before the first `--`. -/
+theorem cluster_sound (s : CliSpec) (pre post : List String) (t os e : String) (tg : Target)
+    (ts : List (Target × String))
+    (hpre : "--" ∉ pre) (ht : t ≠ "--") (hos : os ≠ "--") (hts : ∀ x ∈ ts, x.2 ≠ "--")
+    (hct : classifyTok (mainSpec s).strings t = .opt tg os (some e))
+    (hcos : classifyTok (mainSpec s).strings os = .opt tg os none)
+    (hcts : ∀ x ∈ ts, classifyTok (mainSpec s).strings x.2 = .opt x.1 x.2 none)
+    (hs : singleDash os = true) (he : e.toList ≠ []) (h0 : arityT tg = .zero)
+    (hall : FlagsOf (mainSpec s).strings e.toList (ts.map (·.1))) :
+    parseX s (pre ++ t :: post) = parseX s (pre ++ os :: ts.map (·.2) ++ post) :=
+  engine_cluster (mainBind s) (mainSpec s) pre post t os e tg ts hpre ht hos hts hct hcos hcts hs he h0 hall
+
+/-- the hypotheses of `cluster_sound` hold of `-pvc` for `shuffle`, and the parse computes -/
+example : (cliSpecs.find? (fun s => s.kind == "transformation" && s.name == "shuffle")).map
+      (fun s => (parseX s ["-pvc"] == parseX s ["-p", "-v", "-c"], (parseX s ["-pvc"]).toOption.map (·.length))) =
+    some (true, some 3) := by decide +kernel
 
 end Cnfgen.C17
